@@ -65,6 +65,9 @@ pub enum Op {
     ArcClone(u16),
     ArcRead(u16),
     ArcDrop(u16),
+    /// CArc -> CArcSome -> (clone) -> CArc in the host / in the plugin; the result replaces the handle
+    ArcRoundtripHost(u16),
+    ArcRoundtripPlugin(u16),
     Boxed(u64),
     SliceBox(u8),
     IntoCounter,
@@ -297,6 +300,26 @@ fn body(pl: &Plugin, case: &Case, fl: &mut Flags) -> Result<(), Fail> {
                     fl.cross = true;
                 }
             }
+            Op::ArcRoundtripHost(i) => {
+                if !arcs.is_empty() {
+                    let i = pick(*i, arcs.len());
+                    let (a, v) = arcs.remove(i);
+                    let b = match a.transpose() {
+                        Some(s) => s.clone().transpose(),
+                        None => CArc::default(),
+                    };
+                    arcs.push((b, v));
+                    fl.cross = true;
+                }
+            }
+            Op::ArcRoundtripPlugin(i) => {
+                if let (false, Some(p)) = (arcs.is_empty(), &pm) {
+                    let i = pick(*i, arcs.len());
+                    let (a, v) = arcs.remove(i);
+                    arcs.push((p.arc_roundtrip(a), v));
+                    fl.cross = true;
+                }
+            }
             Op::ArcRead(i) => {
                 if let (false, Some(p)) = (arcs.is_empty(), &pm) {
                     let i = pick(*i, arcs.len());
@@ -411,6 +434,8 @@ fn op_strategy() -> impl Strategy<Value = Op> {
         2 => any::<u16>().prop_map(Op::ArcClone),
         2 => any::<u16>().prop_map(Op::ArcRead),
         2 => any::<u16>().prop_map(Op::ArcDrop),
+        2 => any::<u16>().prop_map(Op::ArcRoundtripHost),
+        1 => any::<u16>().prop_map(Op::ArcRoundtripPlugin),
         1 => any::<u64>().prop_map(Op::Boxed),
         1 => any::<u8>().prop_map(Op::SliceBox),
         1 => Just(Op::IntoCounter),
